@@ -477,7 +477,7 @@ pub fn check(a: &[String]) -> i32 {
     let nworkers = env_u64("ZSIM_WORKERS", 16).max(1);
     let budget_s = std::env::var("ZSIM_BUDGET_S").ok().and_then(|v| v.parse::<f64>().ok()).unwrap_or(match tier {
         Tier::Quick => 75.0,
-        Tier::Thorough => 900.0,
+        Tier::Thorough => 1800.0,
     });
     let vdir = verif_dir();
     let tmpdir = vdir.join("sim/target/zsim-tmp").join(format!("{}-{}-{}", def.id, tier.name(), std::process::id()));
